@@ -15,8 +15,13 @@ THEOREMS = ["LNN.C06_sweep_zero_fix",
             "LNN.C06_fol_fixpoint",
             "LNN.C06_fol_any_schedule",
             "LNN.C06_fol_infer_again",
-            "LNN.C06_fol_runExact_of_eps_zero"]
-MODULES = ["LnnVerif.Props.C06"]
+            "LNN.C06_fol_runExact_of_eps_zero",
+            # first-order infer() returns (Lemmas/FolTerm.lean): potential argument over the finite universe of groundings
+            "LNN.C06_fol_terminates",
+            "LNN.C06_fol_terminates_constants",
+            "LNN.C06_fol_terminates_exists",
+            "LNN.C06_fol_returns_at_fixpoint"]
+MODULES = ["LnnVerif.Props.C06", "LnnVerif.Props.C06Term"]
 FACETS = {"bounds", "reported"}
 MAXS = 200
 
